@@ -117,6 +117,8 @@ class Fn:
         if t[0] == "bool" or t[0] == "double" or t[0] == "other":
             return s
         b, sg = bits_of(t)
+        if re.fullmatch(r"\d+", s) and int(s) < 2 ** (b - (1 if sg else 0)):
+            return s                          # a literal inside the target range
         if src_t is not None:
             try:
                 if fits(bits_of(src_t), (b, sg)):
@@ -246,7 +248,13 @@ class Fn:
                 obj = self.inner(inn[0])
                 if obj and obj[0].get("kind") != "CXXThisExpr":
                     args = [obj[0]] + args
-            return "(" + self.calls[name].format(*[self.E(a) for a in args]) + ")"
+            me = self
+
+            class Lazy:                      # arguments are translated only when the template mentions them
+                def __getitem__(self, i):
+                    return me.E(args[i])
+            import string
+            return "(" + string.Formatter().vformat(self.calls[name], Lazy(), {}) + ")"
         if k == "UnaryExprOrTypeTraitExpr":
             if n.get("name") != "sizeof":
                 raise Unsupported(n.get("name"))
@@ -380,6 +388,148 @@ class Fn:
             return self.prepend(pre, self.S(rest, void))
         raise Unsupported("statement kind %s" % k)
 
+    # ------------------------------------------------------------------ methods as state transformers (cfg mode = "state")
+    def this_field(self, n):
+        x = n
+        while x.get("kind") in ("ParenExpr", "ImplicitCastExpr"):
+            x = self.inner(x)[0]
+        if x.get("kind") == "MemberExpr":
+            base = self.inner(x)
+            b = base[0] if base else None
+            while b is not None and b.get("kind") in ("ImplicitCastExpr", "ParenExpr"):
+                b = self.inner(b)[0]
+            if b is None or b.get("kind") == "CXXThisExpr":
+                return x["name"]
+        return None
+
+    def is_assign(self, s):
+        return s.get("kind") in ("BinaryOperator", "CompoundAssignOperator") and s.get("opcode", "").endswith("=") and \
+            s.get("opcode") not in ("==", "!=", "<=", ">=")
+
+    def written_fields(self, n, acc):
+        if self.is_assign(n):
+            f = self.this_field(self.inner(n)[0])
+            if f and f not in acc:
+                acc.append(f)
+        if n.get("kind") == "UnaryOperator" and n.get("opcode") in ("++", "--"):
+            f = self.this_field(self.inner(n)[0])
+            if f and f not in acc:
+                acc.append(f)
+        for c in self.inner(n):
+            self.written_fields(c, acc)
+
+    def traced(self, n, out):
+        """events for the calls under n whose callee is listed in cfg['trace'] (post-order)"""
+        for c in self.inner(n):
+            self.traced(c, out)
+        if n.get("kind") in ("CallExpr", "CXXMemberCallExpr", "CXXOperatorCallExpr"):
+            name = self.callee_name(self.inner(n)[0])
+            if name in self.cfg.get("trace", []):
+                ints = []
+                for a in self.inner(n)[1:]:
+                    if ctype(qual(a))[0] in ("int", "bool", "enum"):
+                        try:
+                            ints.append(self.E(a))
+                        except Unsupported:
+                            pass
+                out.append("(%s, [%s])" % (coq_string(name), "; ".join(ints)))
+
+    def with_events(self, evs, body):
+        for e in reversed(evs):
+            body = "(let tr := tr ++ [%s] in %s)" % (e, body)
+        return body
+
+    def exit_expr(self, ret):
+        parts = ["tr"] + ([ret] if ret is not None else []) + ["this_" + f for f in self.fields]
+        return "(" + ", ".join(parts) + ")"
+
+    def SS(self, stmts):
+        if not stmts:
+            if not self.void:
+                raise Unsupported("control reaches the end of a non-void function")
+            return self.exit_expr(None)
+        s, rest = stmts[0], stmts[1:]
+        k = s.get("kind")
+        if k == "CompoundStmt":
+            return self.SS(self.inner(s) + rest)
+        if k == "NullStmt":
+            return self.SS(rest)
+        if k == "ReturnStmt":
+            inn = self.inner(s)
+            evs = []
+            self.traced(s, evs)
+            return self.with_events(evs, self.exit_expr(self.E(inn[0]) if inn else None))
+        if k == "IfStmt":
+            inn = self.inner(s)
+            if s.get("hasInit") or s.get("hasVar"):
+                raise Unsupported("if with init/var")
+            evs = []
+            self.traced(inn[0], evs)
+            body = "(if z2b %s then %s else %s)" % (self.E(inn[0]), self.SS([inn[1]] + rest), self.SS(([inn[2]] if len(inn) > 2 else []) + rest))
+            return self.with_events(evs, body)
+        if k == "DeclStmt":
+            evs, lets = [], []
+            for d in self.inner(s):
+                if d.get("kind") != "VarDecl":
+                    raise Unsupported("declaration %s" % d.get("kind"))
+                di = self.inner(d)
+                t = ctype(qual(d))
+                if t[0] in ("int", "bool", "ptr", "enum", "double"):
+                    for c in di:
+                        self.traced(c, evs)
+                    lets.append((self.ident(d["name"]), self.E(di[0]) if di else "0"))
+                elif "va_list" in qual(d) or "va_list" in (d.get("type", {}).get("qualType") or ""):
+                    pass                      # the variadic cursor: its uses (va_start/va_end, pass-through) carry no integer data
+                elif di:
+                    raise Unsupported("local of type %s with initialiser" % qual(d))
+            body = self.SS(rest)
+            for nm, e in reversed(lets):
+                body = "(let %s := %s in %s)" % (nm, e, body)
+            return self.with_events(evs, body)
+        if self.is_assign(s):
+            lhs, rhs = self.inner(s)
+            evs = []
+            self.traced(rhs, evs)
+            f = self.this_field(lhs)
+            nm = None
+            if f:
+                nm = "this_" + f
+            elif lhs.get("kind") == "DeclRefExpr" and lhs["referencedDecl"].get("kind") in ("VarDecl", "ParmVarDecl"):
+                nm = self.ident(lhs["referencedDecl"]["name"])
+            if nm:
+                if s["opcode"] == "=":
+                    e = self.E(rhs)
+                else:
+                    fake = {"kind": "BinaryOperator", "opcode": s["opcode"][:-1], "type": s.get("computeResultType", s["type"]), "inner": [lhs, rhs]}
+                    e = self.wrap(s, self.E(fake), None)
+                return self.with_events(evs, "(let %s := %s in %s)" % (nm, e, self.SS(rest)))
+            x = lhs
+            while x.get("kind") in ("ParenExpr",):
+                x = self.inner(x)[0]
+            if x.get("kind") == "ArraySubscriptExpr" and s["opcode"] == "=":
+                arr, idx = self.inner(x)
+                af = self.this_field(arr)
+                if af:
+                    evs.append("(%s, [%s; %s])" % (coq_string("store:" + af), self.E(idx), self.E(rhs)))
+                    return self.with_events(evs, self.SS(rest))
+            raise Unsupported("assignment to %s" % lhs.get("kind"))
+        if k == "UnaryOperator" and s.get("opcode") in ("++", "--"):
+            x = self.inner(s)[0]
+            f = self.this_field(x)
+            nm = ("this_" + f) if f else (self.ident(x["referencedDecl"]["name"]) if x.get("kind") == "DeclRefExpr" else None)
+            if nm:
+                return "(let %s := %s in %s)" % (nm, self.wrap(s, "(%s %s 1)" % (nm, "+" if s["opcode"] == "++" else "-")), self.SS(rest))
+        if k in ("CallExpr", "CXXMemberCallExpr", "CXXOperatorCallExpr"):
+            name = self.callee_name(self.inner(s)[0])
+            evs = []
+            self.traced(s, evs)
+            if evs or name in self.cfg.get("ignore_calls", []):
+                return self.with_events(evs, self.SS(rest))
+            raise Unsupported("call statement to %s (list it in trace or ignore_calls)" % name)
+        if k in ("VAArgExpr",):
+            return self.SS(rest)
+        raise Unsupported("statement kind %s in a state-mode function" % k)
+
     @staticmethod
     def prepend(evs, body):
         for e in reversed(evs):
@@ -401,7 +551,16 @@ class Fn:
         rq = qual(node)
         ret = rq.split("(")[0].strip()
         void = norm_type(ret) == "void"
-        text = self.S([body], void)
+        state = self.cfg.get("mode") == "state"
+        if state:
+            self.void = void
+            self.fields = []
+            self.written_fields(body, self.fields)
+            for f in self.fields:
+                self.param("this_" + f)
+            text = "(let tr : list cevent := [] in %s)" % self.SS([body])
+        else:
+            text = self.S([body], void)
         used = []
         for p in params:
             t = ctype(qual(p))
@@ -417,10 +576,13 @@ class Fn:
             # object/reference parameters that are only passed on to mapped calls keep their configured Coq type
             elif nm in self.cfg.get("param_types", {}):
                 used.append("(%s : %s)" % (nm, self.cfg["param_types"][nm]))
-        for e in self.extra:
+        for e in self.extra + list(self.cfg.get("extra_params", [])):
             used.append("(%s : %s)" % (e, self.cfg.get("param_types", {}).get(e, "Z")))
         rt = "list cevent" if void else self.cfg.get("ret", "dbl" if ctype(ret)[0] == "double" else "Z")
-        src = ""
+        if state:
+            shape = "(trace%s%s)" % ("" if void else ", result", "".join(", " + f for f in self.fields))
+            return "(* %s : %s -- as a state transformer, returns %s *)\nDefinition %s %s :=\n  %s.\n" % (
+                self.cfg["file"], self.cfg["name"], shape, self.cfg["coq"], " ".join(used), text)
         return "(* %s : %s *)\nDefinition %s %s : %s :=\n  %s.\n" % (self.cfg["file"], self.cfg["name"], self.cfg["coq"], " ".join(used), rt, text)
 
 
